@@ -211,6 +211,13 @@ def restart(ctx, rng, idx):
     ctx.true("restart-same-object", res2[-1].it == N + M, "restart/final-field-iteration-tag", {"it": res2[-1].it, "expected": N + M}, cls="restart-same-object")
     _check_monitor_records(ctx, s, log2, mons, {}, iname)
     ctx.ev("restart-monitor-tags")
+    # a solve() after the restart starts counting from zero again (iteration tags, monitor records, totnit)
+    mons2 = {k: {kk: vv for kk, vv in v.items() if kk != "output"} for k, v in mons.items()}
+    t4, res4, log4 = _traj(S.solve, s.field, cfl, stop={"maxit": N}, monitors=mons2)
+    ctx.true("restart-same-object", S.totnit() == N and log4.itstart == 0 and res4[-1].it == N, "restart/solve-after-restart-keeps-iteration-offset",
+             {"totnit": S.totnit(), "itstart": log4.itstart, "final it": res4[-1].it, "N": N}, cls="restart-same-object")
+    ctx.true("restart-same-object", _same(full[min(N, len(full) - 1)], t4[-1]), "restart/solve-after-restart-differs/" + who, _diff(full[min(N, len(full) - 1)], t4[-1]), cls="restart-same-object")
+    _check_monitor_records(ctx, s, log4, mons2, {}, iname)
     # restart on a fresh object: the returned field alone carries the state (multistep history excepted)
     if iname != "gear":
         S3 = make()
